@@ -26,6 +26,7 @@ def spWill0 (s : St) : Bool :=
   | .awake | .cnt1 => true
   | .cnt2 n1 => decide (n1 = s.queue.length)
   | .computed e => decide (1 ≤ e)
+  | .enter e => decide (1 ≤ e)
   | .loop i e => decide (i < e)
   | _ => false
 
@@ -186,6 +187,19 @@ theorem stepPool_invG0 {c : Cfg} {s t : St} {a : Act} (hb : 1 ≤ c.batch) (hm :
       simp [spWill0, qcount, hqc, hn1]
       exact this
   case spRead =>
+    step_split h
+    · next e hsp hlt =>
+      exact ⟨hi.noX, hi.clc, hi.qcl, by simp,
+        fun _ _ => Or.inr (Or.inr (Or.inr (by simp [spWill0]; omega)))⟩
+    · next e hsp hge =>
+      refine ⟨hi.noX, hi.clc, hi.qcl, by simp, fun hc hq => ?_⟩
+      rcases hi.good hc hq with h1 | h1 | h1 | h1
+      · exact Or.inl h1
+      · exact Or.inr (Or.inl h1)
+      · exact Or.inr (Or.inr (Or.inl h1))
+      · have he : 1 ≤ e := by simpa [spWill0, hsp] using h1
+        exact Or.inl (alive_help (s := s) hw0 (hi.noX hc) (by omega))
+  case spInit =>
     step_split h
     · next e hsp hlt =>
       exact ⟨hi.noX, hi.clc, hi.qcl, by intro i e' h1; simp at h1; omega,
